@@ -32,6 +32,11 @@ MUTATIONS = [
 REQUIRED_COUNTERS = ["pairs.rebuild", "pairs.rebuild_one_used", "pairs.mutant", "equal.true", "equal.false", "equal_pairs.values_compared",
                      "equal_pairs.json_compared", "reflexive", "symmetric"] + [f"mut.{m}" for m in MUTATIONS]
 
+ANCHORS = [
+    "statham.schema.elements.base:Element.__eq__",
+    "statham.schema.property:_Property.__eq__",
+]
+
 
 def plan(tier):
     if tier == "quick":
